@@ -2,7 +2,7 @@
 # tools/run_seed.sh <seed dir with patch.diff + demo.py> <check id> [more check ids]
 # Applies the seeded change to a scratch worktree of /repo's HEAD, confirms the demonstration, runs the checks.
 d=$1; shift
-W=/tmp/seedtest
+W=${SEEDTEST:-/tmp/seedtest}
 git -C $W checkout -q -- . ; git -C $W clean -qfd -e '*.so' -e build >/dev/null
 git -C $W checkout -q --detach $(git -C /repo rev-parse HEAD) 2>/dev/null
 echo "## demo on clean tree:"; (cd $W && timeout 300 /venv/bin/python $d/demo.py >/tmp/seed_demo.out 2>&1; echo "exit=$?"; tail -2 /tmp/seed_demo.out)
@@ -12,7 +12,7 @@ if git -C $W diff HEAD --name-only | grep -q '\.[ch]$'; then CCHANGED=1; (cd $W 
 echo "## demo with change:"; (cd $W && timeout 300 /venv/bin/python $d/demo.py >/tmp/seed_demo.out 2>&1; echo "exit=$?"; tail -2 /tmp/seed_demo.out)
 for c in "$@"; do
   echo "## check $c on changed tree:"
-  VERIF_REPO=$W VERIF_BUILD=/tmp/seedtest_build ./check $c --no-evidence 2>&1 | grep -E "^VIOLATION|^C[0-9]+ |INCONCL|mechanism" | cut -c1-260
+  VERIF_REPO=$W VERIF_BUILD=${W}_build ./check $c --no-evidence 2>&1 | grep -E "^VIOLATION|^C[0-9]+ |INCONCL|mechanism" | cut -c1-260
 done
 git -C $W checkout -q -- . ; git -C $W reset -q --hard
 if [ $CCHANGED = 1 ]; then (cd $W && /venv/bin/python setup.py -q build_ext --inplace --force >/dev/null 2>&1); fi
